@@ -1,1 +1,73 @@
-//! native demonstrations (failing inputs / histories) of the defects found by the checks
+//! Native search/replay support: an independent reference implementation of the RFC 7252 section 3
+//! message format (written from the RFC, not from coap-lite) used to look for a concrete input on
+//! which the crate under test disagrees, when a Verus obligation of C01-C04 fails.  The search is a
+//! replay aid only - it never decides a verdict.
+pub mod reference {
+    #[derive(Clone, Debug, PartialEq)]
+    pub struct Msg {
+        pub vtt: u8,
+        pub code: u8,
+        pub mid: u16,
+        pub token: Vec<u8>,
+        pub opts: Vec<(u16, Vec<u8>)>, // wire order: ascending number, insertion order within a number
+        pub payload: Vec<u8>,
+    }
+
+    fn ext(out: &mut Vec<u8>, x: usize) {
+        if x >= 269 { let f = x - 269; out.push((f >> 8) as u8); out.push((f & 0xff) as u8); }
+        else if x >= 13 { out.push((x - 13) as u8); }
+    }
+    fn nib(x: usize) -> u8 { if x < 13 { x as u8 } else if x < 269 { 13 } else { 14 } }
+
+    /// wire image; None if a value does not fit the 16-bit extended length
+    pub fn encode(m: &Msg) -> Option<Vec<u8>> {
+        let mut out = vec![m.vtt, m.code, (m.mid >> 8) as u8, (m.mid & 0xff) as u8];
+        out.extend_from_slice(&m.token);
+        let mut prev = 0usize;
+        for (n, v) in &m.opts {
+            if v.len() > 65535 + 269 { return None; }
+            let d = *n as usize - prev;
+            out.push(nib(d) << 4 | nib(v.len()));
+            ext(&mut out, d);
+            ext(&mut out, v.len());
+            out.extend_from_slice(v);
+            prev = *n as usize;
+        }
+        if m.code != 0 && !m.payload.is_empty() { out.push(0xFF); out.extend_from_slice(&m.payload); }
+        Some(out)
+    }
+
+    /// three-valued verdict of C03: Ok(msg) = well formed, Err(()) = must reject
+    pub fn decode(b: &[u8]) -> Result<Msg, ()> {
+        if b.len() < 4 { return Err(()); }
+        let tkl = (b[0] & 0x0f) as usize;
+        if tkl > 8 || 4 + tkl > b.len() { return Err(()); }
+        let mut m = Msg { vtt: b[0], code: b[1], mid: (b[2] as u16) << 8 | b[3] as u16, token: b[4..4 + tkl].to_vec(), opts: vec![], payload: vec![] };
+        let mut i = 4 + tkl;
+        let mut num = 0usize;
+        while i < b.len() {
+            if b[i] == 0xFF { m.payload = b[i + 1..].to_vec(); break; }
+            let (dn, ln) = ((b[i] >> 4) as usize, (b[i] & 15) as usize);
+            i += 1;
+            if dn == 15 || ln == 15 { return Err(()); }
+            let mut rd = |nibble: usize, i: &mut usize| -> Result<usize, ()> {
+                match nibble {
+                    13 => { if *i >= b.len() { return Err(()); } let v = b[*i] as usize + 13; *i += 1; Ok(v) }
+                    14 => { if *i + 1 >= b.len() { return Err(()); } let v = ((b[*i] as usize) << 8 | b[*i + 1] as usize) + 269; *i += 2; Ok(v) }
+                    n => Ok(n),
+                }
+            };
+            let d = rd(dn, &mut i)?;
+            let l = rd(ln, &mut i)?;
+            num += d;
+            if num > 65535 || i + l > b.len() { return Err(()); }
+            m.opts.push((num as u16, b[i..i + l].to_vec()));
+            i += l;
+        }
+        Ok(m)
+    }
+    /// datagrams on which a stricter RFC-conformant parser may differ (C03 "either")
+    pub fn lenient(b: &[u8]) -> bool {
+        b.len() >= 4 && ((b[0] >> 6) != 1 || (b[1] == 0 && b.len() > 4) || b.last() == Some(&0xFF))
+    }
+}
